@@ -7,6 +7,8 @@ import (
 	"errors"
 	"fmt"
 	"os"
+	"regexp"
+	"sort"
 	"strconv"
 	"strings"
 	"testing"
@@ -106,6 +108,56 @@ func c07CheckString(s string) string {
 		for _, o := range confusions(s) {
 			if matches(f, resWith("k", o)) {
 				return fmt.Sprintf("filter %s (for value %q) also matches %q", text, s, o)
+			}
+		}
+	}
+	// the quoted value next to a second term on the same key in ONE expression: each term keeps its own meaning
+	{
+		others := confusions(s)
+		sort.Strings(others)
+		for oi, o := range others {
+			if o == "" || oi%3 != len(s)%3 {
+				continue // a third of the neighbours per string (which third depends on the length)
+			}
+			for _, text := range []string{"k:" + q + " OR k:" + strconv.Quote(o), "k:" + strconv.Quote(o) + " OR k:" + q} {
+				f, err := NewFilter(text)
+				if err != nil {
+					return fmt.Sprintf("%s does not parse: %v", text, firstLine(err))
+				}
+				if !matches(f, resWith("k", s)) || !matches(f, resWith("k", o)) {
+					return fmt.Sprintf("filter %s does not match both %q and %q", text, s, o)
+				}
+				for _, o2 := range others {
+					if o2 != o && matches(f, resWith("k", o2)) {
+						return fmt.Sprintf("filter %s also matches %q", text, o2)
+					}
+				}
+			}
+		}
+		// a value that reads like a regexp term: the quoted word is the literal, the bare /…/ the regexp
+		if len(s) >= 3 && s[0] == '/' && s[len(s)-1] == '/' && !strings.ContainsAny(s[1:len(s)-1], "/ \t") {
+			if re, err := regexp.Compile(s[1 : len(s)-1]); err == nil {
+				for _, text := range []string{"k:" + q + " OR k:" + s, "k:" + s + " OR k:" + q, "k:" + q + " AND -k:" + s, "-k:" + s + " AND k:" + q} {
+					f, err := NewFilter(text)
+					if err != nil {
+						// the bare regexp may be unacceptable to the filter grammar for its own reasons
+						continue
+					}
+					and := strings.Contains(text, " AND ")
+					for _, v := range append([]string{s, s[1 : len(s)-1]}, others...) {
+						if v == "" {
+							continue
+						}
+						lit, rx := v == s, re.MatchString(v)
+						want := lit || rx
+						if and {
+							want = lit && !rx
+						}
+						if got := matches(f, resWith("k", v)); got != want {
+							return fmt.Sprintf("filter %s on the value %q: matches=%v, want %v (the quoted word is the literal %q, the bare one the regexp)", text, v, got, want, s)
+						}
+					}
+				}
 			}
 		}
 	}
